@@ -120,10 +120,10 @@ func smtInt(n int64) string {
 	return fmt.Sprintf("%d", n)
 }
 
-func sel(a, i string) string        { return "(select " + a + " " + i + ")" }
-func sel2(h, a, i string) string    { return "(select " + h + " (pr " + a + " " + i + "))" }
-func sto2(h, a, i, v string) string { return "(store " + h + " (pr " + a + " " + i + ") " + v + ")" }
-func sto(a, i, v string) string     { return "(store " + a + " " + i + " " + v + ")" }
+func sel(a, i string) string           { return "(select " + a + " " + i + ")" }
+func sel2(h, a, i string) string       { return "(select " + h + " (pr " + a + " " + i + "))" }
+func sto2(h, a, i, v string) string    { return "(store " + h + " (pr " + a + " " + i + ") " + v + ")" }
+func sto(a, i, v string) string        { return "(store " + a + " " + i + " " + v + ")" }
 func app(f string, a ...string) string { return "(" + f + " " + strings.Join(a, " ") + ")" }
 
 // ---------------------------------------------------------------- values
@@ -158,13 +158,13 @@ type Value struct {
 type FuncVal struct {
 	Lit  *ast.FuncLit
 	Decl *types.Func
-	Env  *State    // defining environment of a literal (captured variables)
-	Pkg  *PkgInfo  // package in which Lit/Decl body lives
-	Recv *Value    // bound receiver of a method value
+	Env  *State   // defining environment of a literal (captured variables)
+	Pkg  *PkgInfo // package in which Lit/Decl body lives
+	Recv *Value   // bound receiver of a method value
 }
 
-func intV(t string, T types.Type) *Value  { return &Value{K: VInt, Term: t, T: T} }
-func boolV(t string) *Value               { return &Value{K: VBool, Term: t, T: types.Typ[types.Bool]} }
+func intV(t string, T types.Type) *Value { return &Value{K: VInt, Term: t, T: T} }
+func boolV(t string) *Value              { return &Value{K: VBool, Term: t, T: types.Typ[types.Bool]} }
 
 func (v *Value) String() string {
 	switch v.K {
@@ -320,13 +320,13 @@ func isInterface(T types.Type) bool {
 // ---------------------------------------------------------------- state
 
 type State struct {
-	env   map[types.Object]*Value
-	heap  map[string]string // component -> current term
-	pc    []string
-	pcG   []bool // parallel to pc: entry is a branch guard
-	alloc string // current allocation map term (Array Int Bool)
-	dead  bool
-	ghost map[string]string // named ghost scalars
+	env    map[types.Object]*Value
+	heap   map[string]string // component -> current term
+	pc     []string
+	pcG    []bool // parallel to pc: entry is a branch guard
+	alloc  string // current allocation map term (Array Int Bool)
+	dead   bool
+	ghost  map[string]string // named ghost scalars
 	epoch  int
 	defers []deferred
 	writes map[string][]string // heap component -> outer indices written ("*" = unknown)
